@@ -270,6 +270,24 @@ def modelFromSnap (s : Snap) : TA :=
   let ps := (s.pools.map (fun p => (⟨p.freeIsolated, p.freeSharable, p.grantedShared, p.grantedReserved⟩ : PoolS))).toArray
   { tree, pools := fun j => ps.getD j ⟨[], [], 0, 0⟩, grants := s.grants.map (toGrant s) }
 
+/-- C01 (b), functional tie: the cpuset the cache records for a live, CPU-pinned container is the model's
+`pinOf` (the subject of `pin_avoids_exclusive`) evaluated on the implementation's own pools and grants -/
+def pinCheck (st : St) : List String :=
+  let s := st.snap
+  if !s.pinCPU || st.tainted then [] else
+  let mt := modelFromSnap s
+  s.grants.foldl (fun errs gs =>
+    match getCtr st gs.ctr, st.cacheView.find? (·.1 == gs.ctr) with
+    | some c, some cv =>
+      if !(c.state == "created" || c.state == "running") || flag c.flags "pc" == "T" || cv.2.2.2 then errs else
+      match pinOf mt (toGrant s gs) with
+      | some w =>
+        let have_ := parseCpuList (cv.2.2.1.getD 0 "-")
+        if !(have_.all (w.contains ·) && w.all (have_.contains ·)) then
+          errs ++ [s!"C01:cached-cpuset-differs-from-model-pin {c.id} cache={cv.2.2.1.getD 0 "-"} model={w} pool={gs.pool} type={repr gs.cpuType}"] else errs
+      | none => errs
+    | _, _ => errs) []
+
 /-- the state effect of a grant without re-checking the guards (used when one request makes
 several grants, whose order the snapshot does not reveal) -/
 def applyUnchecked (t : TA) (g : Grant) : TA :=
@@ -492,7 +510,7 @@ def step (st : St) (toks : List String) : St × List Issue :=
     let st := if !st.haveInit then { st with initPools := st.snap.pools, haveInit := true } else st
     -- (while the plugin is down its state is not expected to follow the runtime's world)
     let down := (st.lastEv.headD "").startsWith "down-"
-    let (st, is) := if down then (st, []) else report st (checkState st)
+    let (st, is) := if down then (st, []) else report st (checkState st ++ pinCheck st)
     -- C13: after an accepted configuration change every created or running container still holds an allocation
     let (st, is) := if st.lastEv.head? == some "reconfig" && ((st.lastEv.getD 1 "").startsWith "change:") && st.lastOk then
         let live := st.ctrs.filter (fun c => c.state == "created" || c.state == "running")
